@@ -13,8 +13,8 @@ from ..sched import run_scheduled
 
 ID = "C17"
 LEVEL = "exploration"
-BUDGET = {"quick": 1600, "thorough": 40000}
-SHARDS = {"quick": 8, "thorough": 16}
+BUDGET = {"quick": 3200, "thorough": 40000}
+SHARDS = {"quick": 16, "thorough": 16}
 RULE = (
     "Part A: Hypothesis-generated acyclic programs (3-8 nodes) with 1-3 ordering signals: producers are function nodes, an emitting "
     "gate or an auto-answering interrupt; 1-3 waiters per signal (function nodes and gates), waiters on two names at once, waits "
